@@ -437,6 +437,26 @@ func (ds *DSetup) AttachmentChaos(b *EnvBudget) []EnvOp {
 						b.take()
 						EditObject(w, res, ns, name, "user", func(o Object) { setPath(o, "drift", childContentField(res), "color") })
 					}},
+					EnvOp{"a-replaced-by-someone-else " + id, func(w *World) {
+						// gone, and an object of the same name made by another decorator for the same
+						// target in its place (another UID, another marker)
+						b.take()
+						cur := w.Store.Get(res, ns, name)
+						if cur == nil || len(ownerRefsOf(cur)) == 0 {
+							return
+						}
+						EditObject(w, res, ns, name, "user", func(o Object) { delete(meta(o), "finalizers") })
+						w.Store.Delete(res, ns, name, DeleteOpts{}, "user")
+						if w.Store.Get(res, ns, name) != nil {
+							return
+						}
+						md := Object{"name": name, "ownerReferences": metaRO(cur)["ownerReferences"],
+							"annotations": Object{"metacontroller.k8s.io/decorator-controller": "someone-else"}}
+						if l := metaRO(cur)["labels"]; l != nil {
+							md["labels"] = l
+						}
+						w.Store.Create(res, ns, Object{"metadata": md, childContentField(res): Object{"color": "foreign"}}, "user")
+					}},
 					EnvOp{"a-unmark " + id, func(w *World) {
 						b.take()
 						EditObject(w, res, ns, name, "user", func(o Object) {
